@@ -164,6 +164,10 @@ inductive Func where
   | call (h : Obj)
   | identityCast (k : Kind)
   | toContainer (k : Kind)
+  /-- `dask.graph_manipulation.chunks.bind(node, *args)`: returns `node` -/
+  | bindFirst
+  /-- `dask.graph_manipulation.chunks.checkpoint(*args)`: returns `None` -/
+  | constNone
   deriving Repr, Inhabited
 
 /-- `d[k] = v` on an insertion-ordered dict -/
@@ -191,6 +195,9 @@ def applyFunc : Func → List Obj → List (Obj × Obj) → Option Obj
   | .toContainer .tuple, args, [] => some (.tuple args)
   | .toContainer .dict, args, [] => (mkDict args).map .dict
   | .toContainer _, _, _ => none
+  | .bindFirst, a :: _, _ => some a
+  | .bindFirst, [], _ => none
+  | .constNone, _, _ => some .none
 
 /-! ### task-spec nodes -/
 
